@@ -5,6 +5,8 @@ package main
 // (4) compared with the Lean model's outcome for the same symbolic op line.
 
 import (
+	"encoding/json"
+	"net/http/httptest"
 	"context"
 	"encoding/hex"
 	"errors"
@@ -1374,10 +1376,49 @@ func (s *Seq) OpRestore(qs []cashu.BlindedMessage) {
 
 func (s *Seq) OpBalance() {
 	line := L(A("mint.balance"))
+	var lastTot uint64
+	haveTot := false
+	defer func() {
+		// the same report as a wallet sees it: GET /v1/info through the mint's real HTTP handler, twice (whatever the
+		// handler keeps between requests must not make the report stale)
+		if !haveTot || s.conc != nil {
+			return
+		}
+		mb := s.env.Opts.Limits.MaxBalance
+		want := mb > 0 && lastTot >= mb
+		for k := 0; k < 2; k++ {
+			rec := httptest.NewRecorder()
+			req := httptest.NewRequest("GET", "/v1/info", nil)
+			func() {
+				defer func() {
+					if r := recover(); r != nil {
+						s.c.MonitorFail("C06", "C06/panic/info/"+panicSig(r), fmt.Sprintf("GET /v1/info panicked: %v", r), s.replay())
+					}
+				}()
+				s.env.Srv.VerifHandler().ServeHTTP(rec, req)
+			}()
+			var doc struct {
+				Nuts map[string]json.RawMessage `json:"nuts"`
+			}
+			if rec.Code != 200 || json.Unmarshal(rec.Body.Bytes(), &doc) != nil {
+				continue
+			}
+			var n4 struct {
+				Disabled bool `json:"disabled"`
+			}
+			if raw, ok := doc.Nuts["4"]; ok && json.Unmarshal(raw, &n4) == nil && n4.Disabled != want {
+				s.c.MonitorFail("C16", "C16/info-endpoint-disabled", fmt.Sprintf("GET /v1/info says nuts.4.disabled=%v with balance %d and max balance %d", n4.Disabled, lastTot, mb), s.replay())
+			}
+		}
+		s.env.DB.ResetTrace()
+	}()
 	s.runOp("balance", line, nil, func() Sx {
 		iss, err1 := s.env.M.IssuedEcash()
 		red, err2 := s.env.M.RedeemedEcash()
 		tot, err3 := s.env.M.TotalBalance()
+		if err3 == nil {
+			lastTot, haveTot = tot, true
+		}
 		if err1 != nil || err2 != nil || err3 != nil {
 			return L(A("err"), I(0), S("raw"))
 		}
@@ -1426,6 +1467,9 @@ func (s *Seq) OpBalance() {
 			s.c.MonitorFail("C16", "C16/balance-differs", fmt.Sprintf("total balance %d, issued %d, redeemed %d", tot, si, sr), s.replay())
 		}
 		mb := s.env.Opts.Limits.MaxBalance
+		if mb > 0 {
+			s.c.Hist("balance-report", fmt.Sprintf("limit set, minting disabled=%v", dis))
+		}
 		if dis != (mb > 0 && tot >= mb) {
 			s.c.MonitorFail("C16", "C16/info-disabled", fmt.Sprintf("info says disabled=%v with balance %d and max %d", dis, tot, mb), s.replay())
 		}
